@@ -715,6 +715,10 @@ class W3PostingsWriter(base.PostingsWriter):
 
         self._ids.append(id_)
         self._weights.append(weight)
+        # Weights are stored (and read back) at float32 precision, which can
+        # round them upwards: the block and term maximum must be an upper
+        # bound on what a reader will see
+        weight = self._weights[-1]
 
         if weight > self._maxweight:
             self._maxweight = weight
